@@ -249,7 +249,9 @@ def judge(plan, ir, defaults, fields_of, verdict_cb):
                 verdict_cb({"lang": lang, "law": "constants_present", "cause": "constant-missing"},
                            "constant %r at %s, observed %r" % (asg["Value"]["Constant"], ".".join(names), cur))
                 break
-    faulty = (not clean) or nested_failed
+    facts = set().union(*[c["facts"] for c in plan.calls]) if plan.calls else set()
+    hard = facts & {"bound", "elem", "alias"}
+    faulty = bool(hard) or nested_failed
     if not faulty:
         # ---- valid never fails
         if not ok_call:
@@ -266,8 +268,7 @@ def judge(plan, ir, defaults, fields_of, verdict_cb):
                     verdict_cb({"lang": lang, "law": "valid_never_fails", "cause": "error-at-assigned-path"},
                                "Build() reports %r for valid arguments" % blamed)
         # ---- exactness, step by step
-        have_steps = plan.kind == "sequence" or len(plan.calls) <= 1
-        if have_steps and len(states) == len(plan.calls) + 1:
+        if len(states) == len(plan.calls) + 1:
             for k, c in enumerate(plan.calls):
                 try:
                     it = iter(plan.subs[k])
@@ -283,21 +284,17 @@ def judge(plan, ir, defaults, fields_of, verdict_cb):
                                "call %d (%s): expected vs observed differ at %s" % (k, c["opt"]["Name"], diff))
                     break
     else:
-        # ---- invalid reported (single-call plans with an injected fault, or a nested builder seen failing)
-        facts = set().union(*[c["facts"] for c in plan.calls]) if plan.calls else set()
-        want = plan.calls[0]["want"] if plan.calls else "valid"
-        cause = CAUSE.get(want, "failing-nested-builder") if facts else "failing-nested-builder"
+        # ---- invalid reported: an injected constraint violation, or a direct nested builder that fails when run alone
+        c0 = plan.calls[0]
+        cause = CAUSE.get(c0["want"], "failing-nested-builder") if hard else "failing-nested-builder"
+        if hard and cause == "direct-constraint" and any(a["Method"] == "append" for a in c0["opt"].get("Assignments") or []):
+            cause = "appended-element-constraint"
         if go:
-            reported = (not ok_call) or bld.get("s") in ("err", "panic")
-            if nested_failed and not (facts - {"nested"}):
-                cause = "failing-nested-builder"
-            if not reported and (facts or nested_failed):
+            if ok_call and bld.get("s") == "ok":
                 verdict_cb({"lang": lang, "law": "invalid_reported", "cause": cause},
                            "Build() returns no error (builder.errors = %r)" % (r["states"][-1].get("errors") if r["states"] else None))
-        else:
-            must = facts & {"bound", "elem", "alias", "nested"}
-            if must and ok_call:
-                verdict_cb({"lang": lang, "law": "invalid_reported", "cause": cause}, "no exception raised")
+        elif ok_call:
+            verdict_cb({"lang": lang, "law": "invalid_reported", "cause": cause}, "no exception raised")
 
 
 def first_diff(a, b, path=""):
@@ -348,11 +345,14 @@ def run(ctx, verdict, replay=None, model_ok=True):
         batch.add({"pkg": job["pkg"], "root": "Root", "defs": []}, job["fmt"], veneers=job["veneers"], text=job["schema_text"])
         replay_plans.append(job)
     else:
-        n = 120 if thorough else 10
+        n = 150 if thorough else 40
         k = 0
         for fmt in srcgen.FORMATS:
             for _ in range(n):
                 s = srcgen.SrcGen(rng, max_depth=4 if thorough else 3, fmt=fmt).schema("s%03d" % k)
+                # a required nullable reference back to an enclosing object makes the generated Go constructors
+                # recurse forever (New<A>() -> New<B>() -> New<A>() ...: C10 / C04's subject, reported there)
+                srcgen._break_required_cycles(s, through_nullable=True)
                 k += 1
                 text = add_defaults(rng, srcgen.render(s, fmt), fmt)
                 batch.add(s, fmt, veneers=gen_veneers(rng, s) if rng.random() < 0.75 else None, text=text)
@@ -375,7 +375,7 @@ def run(ctx, verdict, replay=None, model_ok=True):
             lo = batch.lang(sid, lang)
             irs[(sid, lang)] = gb.IR(lo)
             for o in lo["objects"]:
-                if o["kind"] == "struct":
+                if o["kind"] == "struct" or (lang == "go" and o.get("ctor")):
                     key = "%s.%s" % (o["gopkg"] if lang == "go" else o["pkg"].lower(), o["go"])
                     djobs[lang].append({"id": "%s|%s|%s" % (sid, o["pkg"], o["name"]), "op": "default", "t": key, "sid": sid})
     dres = {"go": batch.run_go(djobs["go"]), "python": batch.run_py(djobs["python"])}
@@ -456,6 +456,9 @@ def run(ctx, verdict, replay=None, model_ok=True):
                 plans[pi].result = r
             else:
                 plans[pi].subs[ci][si] = r
+    if os.environ.get("C09_DEBUG"):
+        json.dump({"dead": [[lang, jobs[lang][k]] for lang in ("go", "python") for k, r in enumerate(results[lang]) if r is None]},
+                  open(os.environ["C09_DEBUG"], "w"), default=lambda o: getattr(o, "text", str(o)))
     live = [i for i, p in enumerate(plans) if p.result is not None and p.result.get("known") and not p.result.get("error")]
     dead = [i for i, p in enumerate(plans) if p.result is None]
     errs = [i for i, p in enumerate(plans) if p.result is not None and p.result.get("error")]
@@ -576,3 +579,9 @@ def trim(r):
     out["states_json"] = [(s.get("json") if isinstance(s, dict) and "json" in s else s) for s in sts][-2:]
     out["errors"] = [s.get("errors") for s in sts if isinstance(s, dict) and "errors" in s][-1:]
     return json.loads(json.dumps(out, default=str))
+
+
+def trim_any(r):
+    if r is None:
+        return None
+    return json.loads(json.dumps({k: v for k, v in r.items() if k != "dump"}, default=str))
